@@ -29,8 +29,11 @@ From MV Require Import Base.Prelude Base.Machine Gen.Consts C17.Model.
 Open Scope N_scope.
 
 (* ---------- environment events ---------- *)
-Inductive regmode := RegOpen | RegClosed | RegFail | RegDrop.
-   (* register-signer: 201 and recorded | 550 round not yet opened | 500 | 201 but the aggregator loses it *)
+Inductive regmode := RegOpen | RegClosed | RegFail | RegDrop | RegAmbig.
+   (* register-signer: 201 and recorded | 550 round not yet opened | failure status, nothing recorded |
+      201 but the aggregator loses it | recorded (the aggregator keeps the LAST registration of a party,
+      as mithril-aggregator's signer_registration_store: insert or replace) but the signer sees a failure
+      status: the aggregator then holds a key the signer never stored *)
 Inductive pubmode := PubOk | PubClean | PubAmbig | PubGone.
    (* register-signatures: 201 | failure, nothing received | received, but the signer sees a failure
       (also: crash between publish and mark) | 410 (treated as success by the client) *)
@@ -48,11 +51,17 @@ Inductive sstate := Init | Unreg (e : N) | Ready (e : N) | RNATS (e : N).
 (* EpochData of the signer's epoch service, as far as signing is concerned *)
 Record edata := {
   ed_epoch : N;           (* aggregator_signer_registration_epoch *)
+  ed_cfg : N;             (* epoch of the network configuration "for aggregation" the allowed signed entity
+                             types and their signing configurations were taken from:
+                             state epoch + SIGNER_RETRIEVAL_OFFSET (mithril-protocol-config http.rs) *)
   ed_init : option N;     (* protocol initializer found at ed_epoch + SIGNER_RETRIEVAL_OFFSET (its key id) *)
   ed_cur_me : bool        (* aggregator's current signers contain (our party, that key) *)
 }.
 
 Record attempt := { at_ent : entity; at_key : N; at_mode : pubmode }.
+   (* agg_me below: recording epochs under which the aggregator holds a registration of our party
+      WITH THE KEY THE SIGNER STORES for that epoch (a registration recorded in RegAmbig mode carries a
+      key the signer dropped: it never matches) *)
 
 Record world := {
   st : sstate;
@@ -89,8 +98,9 @@ Definition agg_current_epoch (a : N) : result N := epoch_offset_by a SIGNER_RETR
 Definition next_key_epoch (a : N) : N := a + Z.to_N NEXT_SIGNER_RETRIEVAL_OFFSET.
 Definition recording_epoch (a : N) : N := a + Z.to_N SIGNER_RECORDING_OFFSET.
 
-(* configuration of a run: allowed discriminants in BTreeSet order, signing configs, lottery oracle *)
-Record config := { discs : list disc; ecfg : cfg; won : N -> bool }.
+(* configuration of a run: per network-configuration epoch (GET /protocol-configuration/{epoch}) the
+   allowed discriminants in BTreeSet order and the signing configs; lottery oracle per key *)
+Record config := { discs_at : N -> list disc; ecfg_at : N -> cfg; won : N -> bool }.
 
 (* list_allowed_signed_entity_types: collect::<Result<Vec<_>>> — first failure fails the lot *)
 Fixpoint entities_of (c : cfg) (ds : list disc) (tp : time_point) : result (list entity) :=
@@ -112,12 +122,12 @@ Definition set_st (w : world) (s : sstate) : world :=
 Definition new_epoch (te e : N) : bool := e <? te.
 
 (* transition_from_unregistered_to_one_of_registered_states, entered with aggregator epoch [a] *)
-Definition register_transition (w : world) (te a : N) (r : regmode) : world :=
+Definition register_transition (w : world) (te a ce : N) (r : regmode) : world :=
   (* update_stake_distribution(te): always succeeds in this environment; not needed later (see props) *)
   match signer_key_epoch a with
   | Ok k =>
       (* inform_epoch_settings *)
-      let d := {| ed_epoch := a; ed_init := if memN k (inits w) then Some k else None;
+      let d := {| ed_epoch := a; ed_cfg := ce; ed_init := if memN k (inits w) then Some k else None;
                   ed_cur_me := memN k (agg_me w) |} in
       let rec_e := recording_epoch a in
       let after_inform := {| st := st w; ed := Some d; inits := inits w; signed := signed w;
@@ -127,7 +137,7 @@ Definition register_transition (w : world) (te a : N) (r : regmode) : world :=
       if memN rec_e (inits w) then final after_inform          (* already registered for that epoch: no request *)
       else match r with
            | RegClosed => set_st after_inform (Unreg te)       (* RegistrationRoundNotYetOpened *)
-           | RegFail => after_inform                           (* KeepState *)
+           | RegFail | RegAmbig => after_inform                (* KeepState; nothing stored *)
            | RegOpen =>
                final {| st := st w; ed := Some d; inits := rec_e :: inits w; signed := signed w;
                         agg_me := rec_e :: agg_me w; atts := atts w; regs := (rec_e, te) :: regs w |}
@@ -176,8 +186,8 @@ Definition step (c : config) (w : world) (ev : event) : world :=
           else
             (* get_mithril_network_configuration(e): needs e + SIGNER_RETRIEVAL_OFFSET *)
             match signer_key_epoch e with
-            | Ok _ => let a := te - lag in
-                      if a <? e then w else register_transition w te a r
+            | Ok ce => let a := te - lag in
+                       if a <? e then w else register_transition w te a ce r
             | _ => w
             end
       | RNATS e => if new_epoch te e then set_st w (Unreg te) else w
@@ -185,12 +195,17 @@ Definition step (c : config) (w : world) (ev : event) : world :=
           if new_epoch te e then set_st w (Unreg te)
           else
             let tp := {| tp_epoch := te; tp_imm := imm; tp_block := blk |} in
-            match entities_of (ecfg c) (discs c) tp with
-            | Ok xs => match first_unsigned xs (signed w) with
-                       | Some x => sign_transition c w x p
-                       | None => w
-                       end
-            | _ => w
+            (* SignerSignedEntityConfigProvider: the epoch service's data *)
+            match ed w with
+            | None => w
+            | Some d =>
+                match entities_of (ecfg_at c (ed_cfg d)) (discs_at c (ed_cfg d)) tp with
+                | Ok xs => match first_unsigned xs (signed w) with
+                           | Some x => sign_transition c w x p
+                           | None => w
+                           end
+                | _ => w
+                end
             end
       end
   end.
@@ -227,15 +242,56 @@ Definition fresh {A} (l' l : list A) : list A := rev (firstn (length l' - length
 Definition obs_marks (c : config) (w : world) (ev : event) : obs :=
   match ev with
   | T te imm blk _ _ _ _ =>
-      match entities_of (ecfg c) (discs c) {| tp_epoch := te; tp_imm := imm; tp_block := blk |} with
-      | Ok xs => OL (map (fun x => OB (memE x (signed w))) xs)
+      (* the entities of the time point under the configuration in force for its epoch *)
+      match signer_key_epoch te with
+      | Ok ce =>
+          match entities_of (ecfg_at c ce) (discs_at c ce) {| tp_epoch := te; tp_imm := imm; tp_block := blk |} with
+          | Ok xs => OL (map (fun x => OB (memE x (signed w))) xs)
+          | _ => OL []
+          end
       | _ => OL []
       end
   | R => OL []
   end.
 
-(* per event: state after it, requests the aggregator received during it, and which of the
-   time point's entities are marked as signed afterwards *)
+(* the register-signer request this event makes the signer send, if any, with the mode it is
+   answered in (failing requests included) *)
+Definition reg_request (w : world) (ev : event) : option (N * regmode) :=
+  match ev with
+  | R => None
+  | T te _ _ lag down r _ =>
+      match st w with
+      | Unreg e =>
+          if new_epoch te e then None else if down then None else
+          match signer_key_epoch e with
+          | Ok _ => let a := te - lag in
+                    if a <? e then None else
+                    match signer_key_epoch a with
+                    | Ok _ => if memN (recording_epoch a) (inits w) then None else Some (recording_epoch a, r)
+                    | _ => None
+                    end
+          | _ => None
+          end
+      | _ => None
+      end
+  end.
+Definition obs_reg (r : regmode) : obs :=
+  OZ (match r with RegOpen => 0 | RegClosed => 1 | RegFail => 2 | RegDrop => 3 | RegAmbig => 4 end)%Z.
+
+(* the two key stores, as membership of the epochs 0 .. te+2 *)
+Definition upto (n : N) : list N := map N.of_nat (seq 0 (N.to_nat n)).
+Definition obs_stores (w : world) (ev : event) : list obs :=
+  match ev with
+  | T te _ _ _ _ _ _ =>
+      [ OL (map (fun k => OB (memN k (inits w))) (upto (te + 3)));
+        OL (map (fun k => OB (memN k (agg_me w))) (upto (te + 3))) ]
+  | R => [ OL []; OL [] ]
+  end.
+
+(* per event: state after it, requests the aggregator received during it, which of the
+   time point's entities are marked as signed afterwards, the register-signer request sent
+   (failing ones included), which epochs have a stored protocol initializer and for which of them the
+   aggregator holds the same key *)
 Fixpoint trace (c : config) (w : world) (evs : list event) : list obs :=
   match evs with
   | [] => []
@@ -244,11 +300,17 @@ Fixpoint trace (c : config) (w : world) (evs : list event) : list obs :=
       OL [ obs_state (st w');
            OL (map obs_attempt (fresh (atts w') (atts w)));
            OL (map (fun x => ON (fst x)) (fresh (regs w') (regs w)));
-           obs_marks c w' ev ] :: trace c w' evs'
+           obs_marks c w' ev;
+           OL (match reg_request w ev with Some (k, r) => [ON k; obs_reg r] | None => [] end);
+           OL (obs_stores w' ev) ] :: trace c w' evs'
   end.
 
 Definition lucky_of (l : list bool) (k : N) : bool := nth (N.to_nat k) l false.
 
-Definition run_obs (ds : list disc) (txc : option (N * N)) (lucky : list bool) (evs : list event) : obs :=
-  let c := {| discs := ds; ecfg := {| tx_cfg := txc; btx_cfg := None |}; won := lucky_of lucky |} in
+(* [cfgs]: per configuration epoch, allowed discriminants and the CardanoTransactions signing config *)
+Definition run_obs (cfgs : list (list disc * option (N * N))) (lucky : list bool) (evs : list event) : obs :=
+  let at_ k := nth (N.to_nat k) cfgs ([], None) in
+  let c := {| discs_at := fun k => fst (at_ k);
+              ecfg_at := fun k => {| tx_cfg := snd (at_ k); btx_cfg := None |};
+              won := lucky_of lucky |} in
   OL (trace c w0 evs).
